@@ -19,6 +19,7 @@ type Profile struct {
 	Reopen, ReadOnly, Abort  int // percentages
 	Oversize                 int // percentage of puts that exceed the segment
 	IdxHeavy                 bool // many LSet / LTrim calls per transaction
+	Members                  []string // set members (default: m1 m2 m3 m|4 and the empty member)
 	Buckets, Keys, Vals      []string
 	NoSPop, NoSMove          bool
 	ReadAfterWrite           bool // allow a tx to read a structure it wrote (C13 trigger)
@@ -261,6 +262,9 @@ func (g *Gen) listOp(write bool) {
 }
 
 func (g *Gen) member() []byte {
+	if len(g.p.Members) > 0 {
+		return []byte(g.pick(g.p.Members))
+	}
 	if g.r.Chance(1, 12) {
 		return []byte{}
 	}
